@@ -964,13 +964,18 @@ func TestCheck(t *testing.T) {
 		"(b) every compile-accepted retry config of the DSL grid x every attempt up to 70 (or max+1) x every harness-answered jitter draw; "+
 		"(c) every answer sequence of length retry.max+2 (+1 with one DLQ requeue) over the behaviour alphabet per store variant "+
 		"(scripts that only differ after the last answer asked for are the same history and run once), every pair of distinct histories on two-target routes, every tuple on multi-worker single-target routes; "+
-		"(d) Drain requested during the 1st/2nd/3rd of three slow deliveries x route shape x answer. "+
+		"(d) Drain requested during the 1st/2nd/3rd of three slow deliveries x route shape x answer; "+
+		"(f) all distinct requeue-cycle histories of (c) (retry.max 1; thorough also 2) as one message each in ONE store that other traffic goes through (1500 messages per placement, every 8th dead-lettered; thorough also 1100 and 4200): "+
+		"store variant x operator action that starts the new cycle {requeue-dead, requeue-messages, requeue-by-filter, cancel+resume} x placement of the other traffic {before, with, while parked in the DLQ, right after the restart; thorough: every non-empty subset} x {same target, second target of the route, other route}; "+
+		"(g) every ordered pair of 8 deliver-block kinds {2 full blocks, max only, base+cap only, cap only, jitter only, timeout only, empty} (triples: 4 kinds, thorough all 8) x defaults.deliver {written, partial, none} x {one route, one route per target} x 6 answer scripts (always 503 at both jitter extremes, 429-408-200, hang, 200 after 300ms/1s/5s), one message per target, each judged against its own written settings. "+
 		"distinct_nontrivial counts (part, input class, attempt<=max?, observed settlement), (part, jitter, capped?, position in the delay window) and (part, store, sends, terminal state) classes")
 	r.Assume("lease mutations on the store succeed (statement) and leases do not expire during a delivery (lease TTL >= 30s, target timeout 1s); a history with a failed lease mutation is counted and not judged; a store whose batch extension fails is covered because the per-action fallback succeeds")
 	r.Assume("the delivery target is an in-memory Deliverer (part a, b) or the real HTTPDeliverer with the compiled egress policy over an in-memory RoundTripper (parts a, c, d); no sockets, DNS or TLS; policy denials in parts c/d come from the real egress check (deny rule)")
 	r.Assume("retry delays are compared with a 2ns tolerance for float64 rounding and truncation to whole nanoseconds")
 	r.Assume("jitter draws are answered by the harness through the math/rand -> vrand import rewrite of dispatcher/push.go; answers {0, 0.5, largest float < 1} (thorough: six values); any other source of randomness would be flagged as not exhaustive")
 	r.Assume("Postgres backend not executed; with several workers the interleaving inside a bubble is the Go scheduler's (the per-message oracle is schedule independent), no controlled preemption search; SQLite long-poll shortened to 250ms in the harness-built dispatcher")
-	r.Assume("retry.max, base, cap, jitter of the oracle are read from the configuration text, not from the compiled config: the real Parse/Compile/buildDispatchRoutes mapping is inside the checked path")
+	r.Assume("retry.max, base, cap, jitter and timeout of the oracle are read from the configuration text, not from the compiled config: the real Parse/Compile/buildDispatchRoutes mapping is inside the checked path; a setting a deliver block does not write is the one of the written defaults.deliver block, else the documented built-in default (max 8, base 2s, cap 2m, jitter 0.2, timeout 10s)")
+	r.Assume("part (g): an answer that arrives later than the target's own timeout counts as a timeout (retryable) whatever its status; answer delays {300ms, 1s, 5s} never coincide with a timeout of the grid")
+	r.Assume("part (f): the other traffic is not judged message by message, only that all of it ends delivered or dead-lettered; whether the store's internal thresholds were actually crossed is not observable from outside (the sizes are chosen above the memory store's 1024-entry order-list compaction threshold); with two workers the interleaving of judged and other messages is the Go scheduler's")
 	r.Finish()
 }
